@@ -5,6 +5,17 @@ from .clang_ast import Unsupported, sizeof
 from .mem import *      # noqa
 
 
+def _contains_call(node):
+    todo = [node]
+    while todo:
+        x = todo.pop()
+        if isinstance(x, dict):
+            if x.get('kind') == 'CallExpr':
+                return True
+            todo.extend(x.get('inner') or [])
+    return False
+
+
 class ExprMixin:
     # ------------------------------------------------------------------ helpers
     def ct(self, node):
@@ -534,7 +545,25 @@ class ExprMixin:
                 return bv(ca, t.bits)
             return from_bool(truth(self.rval(R)), t.bits)
         g = a if op == '&&' else z3.Not(a)
-        b = self.guarded(g, lambda: truth(self.rval(R)))
+        # a right operand that contains a call may have side effects (`blocks > 0 && add_bits(hs, ...)`): then the path forks on the
+        # left operand, as C's sequencing prescribes, instead of evaluating both operands in one state
+        saved = self.st.copy() if _contains_call(R) else None
+        try:
+            b = self.guarded(g, lambda: truth(self.rval(R)))
+        except Unsupported as ex:
+            if saved is None or 'side effect in a conditionally evaluated operand' not in str(ex):
+                raise
+            from .exec import PathEnd
+            self.st = saved
+            if self.decide(2) == 0:
+                self.assume(g)
+                if not self.feasible():
+                    raise PathEnd()
+                return from_bool(truth(self.rval(R)), t.bits)
+            self.assume(z3.Not(g))
+            if not self.feasible():
+                raise PathEnd()
+            return bv(0 if op == '&&' else 1, t.bits)
         return from_bool(z3.And(a, b) if op == '&&' else z3.Or(a, b), t.bits)
 
     def rv_ConditionalOperator(self, e):
